@@ -214,10 +214,11 @@ def find_sites(F, scope_keys, cf, callee_filter, rule, allow, family_excluded,
     def allow_via_callers(fn, cbase, depth=0):
         """a file-local helper (anonymous namespace / lambda) inherits the allow entry when every caller
         has one for the same callee: the reviewed block of code was moved, not changed"""
-        if depth > 2 or not (fn.is_lambda or "(anonymous namespace)" in fn.name):
-            return None
         cs = callers_of(fn)
         if not cs:
+            return None
+        same_class = bool(fn.cls) and all(c.cls and strip_targs(c.cls) == strip_targs(fn.cls) for c in cs)
+        if depth > 2 or not (fn.is_lambda or "(anonymous namespace)" in fn.name or same_class):
             return None
         keys = []
         for c in cs:
